@@ -249,7 +249,10 @@ fn run(job: &Job, out: &mut JobOut) {
             Ok(r) => {
                 out.evals += r.len() as u64;
                 out.nontrivial += r.len() as u64;
-                if let Some(p) = r.iter().zip(base.iter()).position(|(a, b)| !same(*a, *b)) {
+                // within rounding (bit-identity across data layouts is C13's statement)
+                let lane_scale = |j: usize| tabs[j].iter().fold(0.0f64, |m, v| m.max(v.abs())) * job.ax.mesh_ratio.max(1.0);
+                let kk0 = if matches!(job.strat, Strat::Spline(_)) { k_for(&job.ax) } else { 24.0 };
+                if let Some(p) = r.iter().zip(base.iter()).enumerate().position(|(i, (a, b))| !same(*a, *b) && !((a - b).abs() <= kk0 * f64::EPSILON * lane_scale(i % l.max(1)).max(b.abs()))) {
                     out.violate(
                         format!("{key}:layout-{how}"),
                         format!("with the data stored in layout '{how}' (same logical contents) lane {} gives {:e} instead of {:e}", p % l.max(1), r.iter().nth(p).unwrap(), base.iter().nth(p).unwrap()),
@@ -383,7 +386,7 @@ fn body(ctx: &Ctx) -> (Summary, Meta) {
             alpha::axis_from_word("w", 1.25, &[2.0, 1.0]),
         ]
     } else {
-        alpha::full_word_axes(&alpha::h3(), "w", 3, 5, &[0.0])
+        alpha::full_word_axes(&alpha::h4(), "w", 3, 6, &[0.0, -3.0])
     };
     axes.push(alpha::axis_from_word("W", 0.0, &[1.0, 8.0, 0.125, 1.0]));
     let trailing: Vec<Vec<usize>> = vec![
